@@ -28,8 +28,8 @@ AQ = r"^active_query::"
 def c04_2(cx):
     """QueryCompletion::finish builds OriginAndExtra::derived_untracked iff self.untracked_read; prepare_completion copies the flag; seed_iteration ORs it; metadata convergence compares is_derived_untracked."""
     b = cx.fn(AQ + r"QueryCompletion::finish$")
-    du = cx.one(b.calls(r"^zalsa_local::OriginAndExtra::derived_untracked$"), "derived_untracked call")
-    d = cx.one(b.calls(r"^zalsa_local::OriginAndExtra::derived$"), "derived call")
+    du = cx.one_call(b, r"^zalsa_local::OriginAndExtra::derived_untracked$", "derived_untracked call")
+    d = cx.one_call(b, r"^zalsa_local::OriginAndExtra::derived$", "derived call")
     flag = r"^\$1\.untracked_read$"
     cx.only_if(b, d, BoolIs(flag, False, desc="!self.untracked_read"), "plain Derived origin only if no untracked read")
     with cx.only("C03"):
@@ -47,7 +47,7 @@ def c04_2(cx):
     # caller passes the previous memo's is_derived_untracked
     g = cx.fn(r"^zalsa_local::ActiveQueryGuard::<'me>::seed_iteration$")
     cb = cx.closure_passed_to(g, r"with_query_stack_unchecked_mut$")
-    c = cx.one(cb.calls(AQ + r"ActiveQuery::seed_iteration$"), "seed_iteration call")
+    c = cx.one_call(cb, AQ + r"ActiveQuery::seed_iteration$", "seed_iteration call")
     a = [cb.origin_op(x, 0, {1: closure_origin(g, cb)}) for x in c.node()["args"]]
     cx.flow(cb, a[4], [r"is_derived_untracked\(\$2\)"], [r"^const:"], "the flag seeded is previous.is_derived_untracked()", c)
     cx.flow(cb, a[1], [r"^\$2\.durability$"], [r"^const:"], "the durability seeded is previous.durability", c)
@@ -67,7 +67,7 @@ def c04_4(cx):
     if "persistence" in cx.facts.features:
         return
     d = cx.fn(r"^zalsa_local::QueryRevisions::discard_edges_if_never_change$")
-    ce = cx.one(d.calls(r"^zalsa_local::OriginAndExtra::clear_edges$"), "clear_edges call")
+    ce = cx.one_call(d, r"^zalsa_local::OriginAndExtra::clear_edges$", "clear_edges call")
     cx.only_if(d, ce, Cmp(r"^\$1\.durability$", "==", r"Durability::NEVER_CHANGE"), "edges cleared only for NEVER_CHANGE results")
     cx.only_if(d, ce, VariantIn(r"QueryRevisions::origin\(\$1\)$", {"Derived"}), "edges cleared only for Derived origins")
     cx.only_if(d, ce, CallIs(r"^cycle::CycleHeads::is_empty$", True, [r"QueryRevisions::cycle_heads\(\$1\)$"]), "edges cleared only without cycle heads")
@@ -87,12 +87,12 @@ def c05_1(cx):
     """fetch reaches eviction.record_use(id) on every normal return; Lru::record_use inserts iff capacity.is_some(); Lru::insert is LinkedHashSet::insert (move-to-back)."""
     f = cx.fn(r"^function::fetch::<impl function::IngredientImpl<C>>::fetch$")
     cx.must_call(f, r"EvictionPolicy::record_use$")
-    c = cx.one(f.calls(r"EvictionPolicy::record_use$"), "record_use call in fetch")
+    c = cx.one_call(f, r"EvictionPolicy::record_use$", "record_use call in fetch")
     a = cx.args(c)
     cx.flow(f, a[0], [r"^\$1\.eviction$"], [], "uses this ingredient's policy", c)
     cx.flow(f, a[1], [r"^\$5$"], [r"^const:"], "records the requested id", c)
     r = cx.fn(LRUT + r"record_use$")
-    ins = cx.one(r.calls(LRU + r"insert$"), "Lru::insert call in record_use")
+    ins = cx.one_call(r, LRU + r"insert$", "Lru::insert call in record_use")
     cx.skipped_only_if(r, ins, VariantIn(r"^\$1\.capacity$", {"None"}, desc="capacity is None"), "record_use skips only without capacity")
     cx.flow(r, cx.arg(ins, 1), [r"^\$2$"], [], "inserts the used id", ins)
     i = cx.fn(LRU + r"insert$")
@@ -104,7 +104,7 @@ def c05_1(cx):
 def c05_2(cx):
     """for_each_evicted: returns immediately if capacity is None; loop continues only while set.len() > cap; each iteration pops the FRONT and passes the id to cb; set_capacity(0) (None) clears the set."""
     b = cx.fn(LRUT + r"for_each_evicted$")
-    allpops = cx.sites(b.calls(r"^hashlink::LinkedHashSet::<T, S>::pop_(front|back)$"), 1, "pop in for_each_evicted")
+    allpops = cx.some_calls(b, r"^hashlink::LinkedHashSet::<T, S>::pop_(front|back)$", 1, "pop in for_each_evicted")
     back = [p for p in allpops if b.callee(p).endswith("pop_back")]
     cx.check(not back, "evicts from the front (least recently used), never pops the back", (back or allpops)[0], key="no-pop-back")
     pops = [p for p in allpops if p not in back] or allpops
@@ -115,7 +115,7 @@ def c05_2(cx):
         cx.only_if(b, p, VariantIn(r"^\$1\.capacity$", {"Some"}), "eviction only with a capacity set")
     # loop exit only via !(len > cap) : from the loop head every path to return crosses a (len <= cap) edge or the None-capacity edge
     cx.skipped_only_if(b, pops[0], [Cmp(ln, "<=", capv, desc="len <= capacity"), VariantIn(r"^\$1\.capacity$", {"None"})], "returns without further eviction only if len <= capacity or no capacity (bound)")
-    cbs = cx.sites(b.calls(r"^std::ops::FnMut::call_mut$"), 1, "callback invocation")
+    cbs = cx.some_calls(b, r"^std::ops::FnMut::call_mut$", 1, "callback invocation")
     for c in cbs:
         cx.flow(b, cx.arg(c, 1), [r"pop_front\(.*\)@Some\.0"], [], "the callback receives the popped id", c)
     s = cx.fn(LRUT + r"set_capacity$")
@@ -148,20 +148,20 @@ def c05_3(cx):
 def c05_4(cx):
     """reset_for_new_revision: for_each_evicted(evict -> evict_value_from_memo_for(table.memos_mut(evict), ..)) then deleted_entries.clear(); Zalsa::new_revision and Zalsa::evict_lru both call reset_for_new_revision for every ingredient in ingredients_requiring_reset; function ingredients require reset."""
     r = cx.fn(r"^<function::IngredientImpl<C> as ingredient::Ingredient>::reset_for_new_revision$")
-    fe = cx.one(r.calls(r"EvictionPolicy::for_each_evicted$"), "for_each_evicted call")
-    cl = cx.one(r.calls(r"DeletedEntries::<C>::clear$"), "deleted_entries.clear call")
+    fe = cx.one_call(r, r"EvictionPolicy::for_each_evicted$", "for_each_evicted call")
+    cl = cx.one_call(r, r"DeletedEntries::<C>::clear$", "deleted_entries.clear call")
     cx.must_call(r, r"EvictionPolicy::for_each_evicted$")
     cx.must_call(r, r"DeletedEntries::<C>::clear$")
     cb = cx.closure_passed_to(r, r"EvictionPolicy::for_each_evicted$")
-    ev = cx.one(cb.calls(r"evict_value_from_memo_for$"), "evict_value_from_memo_for in the callback")
+    ev = cx.one_call(cb, r"evict_value_from_memo_for$", "evict_value_from_memo_for in the callback")
     cx.flow(cb, cx.arg(ev, 0), [r"^table::Table::memos_mut\(.*, \$2\)$"], [], "evicts the memo table of the evicted id", ev)
     q = cx.fn(r"^<function::IngredientImpl<C> as ingredient::Ingredient>::requires_reset_for_new_revision$")
     cx.flow(q, q.origin_local(0), [r"^const:1$"], [r"^const:0$"], "function ingredients require reset")
     for name in ("new_revision", "evict_lru"):
         z = cx.fn(r"^zalsa::Zalsa::%s$" % name)
-        c = cx.one(z.calls(r"^ingredient::Ingredient::reset_for_new_revision$"), "reset call in " + name)
+        c = cx.one_call(z, r"^ingredient::Ingredient::reset_for_new_revision$", "reset call in " + name)
         cx.flow(z, cx.arg(c, 0), [r"\$1\.ingredients_vec\[.*IngredientIndex::as_u32\(.*\$1\.ingredients_requiring_reset"], [], "%s resets each ingredient listed in ingredients_requiring_reset" % name, c)
-        it = cx.sites(z.calls(r"^std::iter::IntoIterator::into_iter$"), 1, "iteration in " + name)
+        it = cx.some_calls(z, r"^std::iter::IntoIterator::into_iter$", 1, "iteration in " + name)
         cx.flow(z, cx.arg(it[0], 0), [r"^\$1\.ingredients_requiring_reset$"], [], "%s iterates ingredients_requiring_reset" % name, it[0])
     nr = cx.fn(r"^zalsa::Zalsa::new_revision$")
     cx.must_call(nr, r"^runtime::Runtime::new_revision$")
@@ -184,5 +184,5 @@ def c05_4(cx):
 def c05_5(cx):
     """maybe_changed_after_cold returns Changed for a value-less old memo instead of executing (shared site with C03.1)."""
     cold = cx.fn(r"^function::maybe_changed_after::<impl function::IngredientImpl<C>>::maybe_changed_after_cold$")
-    ex = cx.one(cold.calls(r"execute::<impl function::IngredientImpl<C>>::execute$"), "execute in maybe_changed_after_cold")
+    ex = cx.one_call(cold, r"execute::<impl function::IngredientImpl<C>>::execute$", "execute in maybe_changed_after_cold")
     cx.only_if(cold, ex, VariantIn(r"downcast\(.*\)\.value$", {"Some"}, desc="old_memo.value is Some"), "an evicted (value-less) memo is not re-executed during verification")
